@@ -517,6 +517,12 @@ func BulkAddRotatedSegmetas(finalSegmetas []*structs.SegMeta, shouldWriteSfm boo
 //
 // Returns the segbaseDirs for the segkeys that were removed
 func removeSegmetas(segkeysToRemove map[string]struct{}, indexName string) map[string]struct{} {
+	return removeSegmetasOfOrg(segkeysToRemove, indexName, nil)
+}
+
+// like removeSegmetas; when orgid is given together with indexName, only the entries of that
+// organisation's index are removed
+func removeSegmetasOfOrg(segkeysToRemove map[string]struct{}, indexName string, orgid *int64) map[string]struct{} {
 	if segkeysToRemove == nil && indexName == "" {
 		return nil
 	}
@@ -557,7 +563,7 @@ func removeSegmetas(segkeysToRemove map[string]struct{}, indexName string) map[s
 		}
 
 		if indexName != "" {
-			if segMetaData.VirtualTableName != indexName {
+			if segMetaData.VirtualTableName != indexName || (orgid != nil && segMetaData.OrgId != *orgid) {
 				preservedSmEntries = append(preservedSmEntries, &segMetaData)
 				continue
 			} else {
